@@ -227,7 +227,37 @@ def record_suite(suite, tier, seed, key):
         return json.load(open(idx))
     os.makedirs(cdir, exist_ok=True)
     out = []
-    if mode == "scripts":
+    if mode == "repotests":
+        # the crate's own, unedited test suite, run with the span-tracing hook on: every critical section of
+        # src/raw/mod.rs writes (counters on entry, counters on exit); judged by TraceRaw.tla
+        raw = os.path.join(cdir, "raw.ndjson")
+        env = dict(os.environ, CARGO_NET_OFFLINE="true", GRIDDLE_VERIF_TRACE=raw,
+                   CARGO_TARGET_DIR=os.path.join(WORK, "repo_tests_target"),
+                   RUSTFLAGS="--cfg griddle_verif --check-cfg cfg(griddle_verif)")
+        cmd = ["timeout", "1500", "cargo", "test", "--offline", "--lib", "--tests", "--no-fail-fast"]
+        r = subprocess.run(cmd, cwd=REPO, env=env, stdout=subprocess.PIPE, stderr=subprocess.STDOUT, text=True)
+        results = re.findall(r"test result: (\w+)\. (\d+) passed; (\d+) failed", r.stdout)
+        passed = sum(int(x[1]) for x in results)
+        failed = sum(int(x[2]) for x in results)
+        info = {}
+        if os.path.exists(raw):
+            s = subprocess.run(["python3", os.path.join(VERIF, "tools", "rawsplit.py"), raw, os.path.join(cdir, "raw")],
+                               stdout=subprocess.PIPE, stderr=subprocess.STDOUT, text=True)
+            try:
+                info = json.loads(s.stdout.strip().splitlines()[-1])
+            except Exception:
+                info = {}
+            os.remove(raw)
+        for rr, d in sorted(info.get("files", {}).items()):
+            out.append(dict(path=d["path"], status="ok", suite=suite, profile="debug", elem="-", raw=True,
+                            records=d["records"], distinct=d["distinct"], actions=d["actions"],
+                            tests_passed=passed, tests_failed=failed,
+                            log="", cmd="GRIDDLE_VERIF_TRACE=<file> RUSTFLAGS='--cfg griddle_verif' cargo test --offline --lib --tests (R=%s)" % rr))
+        if not out:
+            out.append(dict(path=os.path.join(cdir, "none.ndjson"), status="norecords", suite=suite, profile="debug", elem="-", raw=True,
+                            records=0, distinct=0, actions={}, tests_passed=passed, tests_failed=failed,
+                            log=r.stdout[-1500:], cmd=" ".join(cmd)))
+    elif mode == "scripts":
         for fn, el in PLAN.DEFECT_SCRIPTS:
             for prof in ("debug", "release"):
                 p = os.path.join(cdir, "%s.%s.ndjson" % (fn.replace(".ndjson", ""), prof))
@@ -401,6 +431,15 @@ def trace_stats(path):
             op = e.get("op")
             if op in ("Header", "Reset", "EndRun", "Skip", "Snap"):
                 continue
+            if op is None and "a" in e:
+                # span record of the crate's own test suite (de-duplicated, with a count)
+                op = "raw:" + e["a"]
+                n += e.get("count", 1)
+                ops[op] = ops.get(op, 0) + e.get("count", 1)
+                if e["pre"][3] == 1:
+                    split_states.add((e["pre"][0], e["pre"][1], e["pre"][2], e["pre"][4], e["pre"][5]))
+                    split_events += e.get("count", 1)
+                continue
             n += 1
             ops[op] = ops.get(op, 0) + 1
             for s in e.get("st", []):
@@ -515,6 +554,13 @@ def run_check(pid, tier, seed, replay):
             traces += record_suite(s, tier, seed, key)
     # crashes and hangs of the driver are data
     for t in traces:
+        if t.get("raw"):
+            if t["status"] != "ok":
+                notes.append("repo_tests: no span records (%s)" % t["log"][-200:].replace("\n", " | "))
+            else:
+                notes.append("repo_tests: %d records (%d distinct) from the crate's own test suite (%d tests passed, %d failed) judged by TraceRaw: %s"
+                             % (t["records"], t["distinct"], t["tests_passed"], t["tests_failed"], t["cmd"][-8:]))
+            continue
         if t["status"] != "ok" and t.get("suite") != "miri":
             prop = "C05" if t["status"].startswith("crash") else "C04"
             if pid == prop:
@@ -549,6 +595,10 @@ def run_check(pid, tier, seed, replay):
     jobs = []
     with cf.ThreadPoolExecutor(max_workers=8) as ex:
         for t in traces:
+            if t.get("raw"):
+                if os.path.exists(t["path"]) and os.path.getsize(t["path"]) > 0:
+                    jobs.append((t, "TraceRaw", ex.submit(validate, "TraceRaw", t["path"])))
+                continue
             if os.path.exists(t["path"]) and os.path.getsize(t["path"]) > 0:
                 jobs.append((t, "TraceRef", ex.submit(validate, "TraceRef", t["path"])))
                 jobs.append((t, "TraceCount", ex.submit(validate, "TraceCount", t["path"])))
@@ -570,7 +620,7 @@ def run_check(pid, tier, seed, replay):
     seen_paths = set()
     for t, sp, r in results:
         if r["tool_error"]:
-            if sp in ("TraceCount", "TraceGriddle"):
+            if sp in ("TraceCount", "TraceGriddle", "TraceRaw"):
                 # the strict specs never decide a property: an evaluation error there is reported as drift
                 drift.append(dict(trace=t["path"], what="strict_spec_evaluation_error_" + sp, line=0, op="?"))
             else:
